@@ -459,6 +459,9 @@ type origin struct {
 	// optional hook: called with the live request object at call time
 	onCall func(idx int, req *http.Request)
 	pre    func() // optional: called on entry, before the call takes its place in the script
+	// the URL of the client request being served (set by the runner); note reports a finding about a request
+	clientURL string
+	note      func(code, detail string)
 }
 
 func bodyFor(idx int, hs []Hdr) []byte {
@@ -501,6 +504,10 @@ func (o *origin) RoundTrip(req *http.Request) (*http.Response, error) {
 	}
 	method := req.Method
 	hdrSnap := hdrTokens(req.Header)
+	url0 := req.URL.String()
+	o.mu.Lock()
+	clientURL := o.clientURL
+	o.mu.Unlock()
 	conditional := req.Header.Get("If-None-Match") != "" || req.Header.Get("If-Modified-Since") != ""
 
 	var ctxErr error
@@ -516,6 +523,16 @@ func (o *origin) RoundTrip(req *http.Request) (*http.Response, error) {
 		ctxErr = err
 	}
 	stop := time.Now()
+	if o.note != nil {
+		// the request handed to the upstream is the transport's own: it is the client's URL, and nothing the caller does
+		// with its request object after RoundTrip has returned can change it while the call is in flight
+		if u1, h1 := req.URL.String(), hdrTokens(req.Header); u1 != url0 || h1 != hdrSnap {
+			o.note("upstream-request-changed-in-flight", fmt.Sprintf("call %d: %s%s -> %s%s", idx, url0, hdrSnap, u1, h1))
+		}
+		if clientURL != "" && url0 != clientURL {
+			o.note("upstream-url-differs", fmt.Sprintf("call %d: client %s upstream %s", idx, clientURL, url0))
+		}
+	}
 	rep := ent.Plain
 	if conditional {
 		rep = ent.Cond
